@@ -1,5 +1,6 @@
 import KoordVerif.Proofs.C16Evict
 import KoordVerif.Model.C16Arb
+import KoordVerif.Proofs.C16ExtArb
 /-
 C16 — descheduler disruption budgets are never exceeded, even with concurrent evictors.
 
@@ -132,10 +133,12 @@ example : oneSection splitProg = false ∧ oneSection allowDoneProg = false := b
 
 Full statement `round_inv` (DESIGN §4): after `round cfg uf st order`, per node / namespace / workload / globally
 `#(running ∨ passed) ≤ max(limit, count before the round) + #(admissions the code exempts: pod gone or annotated)`,
-provided no pod has two open jobs.  Proved here: the per-iteration half (`round_inv_partial`): every
-non-exempt admission had headroom in ALL dimensions on the state containing every earlier admission of the
-same round, and admits exactly that one job.  Missing: the counting lemma `count after ≤ counted-excluding-p + 1`
-for each of the five counters (checked on every generated history by the Go oracle instead). -/
+provided no pod has two open jobs.  Both halves are proved: the per-iteration half (`round_inv_partial`, kept under
+its old name): every non-exempt admission had headroom in ALL dimensions on the state containing every earlier
+admission of the same round, and admits exactly that one job; and the counting half (`round_inv`, below, with the
+development in Proofs/C16ExtArb.lean): `count after ≤ counted-excluding-p + 1` for each of the five counters and
+the induction over the loop.  The hypothesis `WF` is decidable; the driver prints it before every round and the
+harness evaluates it on the API state (observation `wf`). -/
 
 theorem markPassed_effect (st : ArbSt) (jid : Nat) :
     (markPassed st false jid).1.arbitrated = jid :: st.arbitrated ∧
@@ -228,6 +231,85 @@ theorem no_second_job (cfg : ArbCfg) (st : ArbSt) (p : PodA) (j : JobA)
     refine ⟨j, hj, ?_⟩
     rcases hph with h | h | h <;> simp [live, h, hpod]
   simp [arbFilter, this]
+
+/-- **round_inv** (counting half; with `round_inv_partial` the full statement of DESIGN §4).  For every
+    well-formed state (unique names, PodRefs resolve inside their namespace, no pod with two open jobs),
+    every configuration, every Update-failure script and every job order: after the round the jobs that are
+    running or passed — globally, per namespace, as pods per real node and as pods per workload — number at
+    most max(limit, the count before the round) + the admissions the code exempts on purpose
+    (`exemptAdm`: pod gone / PodRef nil, or pod carrying the evict annotation), and the same holds for the
+    unavailable-or-migrating pods of every workload (`unavailable_inv`).  Each clause is conditional on its
+    gate not being skipped and, for the three int32 limits, on a positive value — exactly when the code checks. -/
+theorem round_inv (cfg : ArbCfg) (uf : List Nat) (st : ArbSt) (order : List Nat) (w : WF st) :
+    let st' := round cfg uf st order
+    let E := roundExempt cfg uf st order
+    (gateSkipped cfg 5 = false → 0 < cfg.maxGlobal → cntGlobal st' ≤ max cfg.maxGlobal.toNat (cntGlobal st) + E) ∧
+    (∀ n, n ≠ 0 → gateSkipped cfg 3 = false → 0 < cfg.maxNode → cntNode st' n ≤ max cfg.maxNode.toNat (cntNode st n) + E) ∧
+    (∀ k, gateSkipped cfg 4 = false → 0 < cfg.maxNs → cntNs st' k ≤ max cfg.maxNs.toNat (cntNs st k) + E) ∧
+    (∀ wl k, wl ≠ 0 → gateSkipped cfg 2 = false →
+      cntMigr st' wl k ≤ max (max (wlLimit cfg wl cfg.mmKind cfg.maxMigr) 1) (cntMigr st wl k) + E) ∧
+    (∀ wl k, wl ≠ 0 → gateSkipped cfg 1 = false →
+      cntUnav st' wl k ≤ max (wlLimit cfg wl cfg.muKind cfg.maxUnav) (cntUnav st wl k) + E) := by
+  refine ⟨fun hs hl => ?_, fun n hn hs hl => ?_, fun k hs hl => ?_, fun wl k hw hs => ?_, fun wl k hw hs => ?_⟩
+  · exact fold_bound cfg uf cntGlobal _ (fun s j ws => step_global cfg uf s j ws hs hl) order st w
+  · exact fold_bound cfg uf (cntNode · n) _ (fun s j ws => step_node cfg uf s j ws n hn hs hl) order st w
+  · exact fold_bound cfg uf (cntNs · k) _ (fun s j ws => step_ns cfg uf s j ws k hs hl) order st w
+  · exact fold_bound cfg uf (cntMigr · wl k) _ (fun s j ws => step_migr cfg uf s j ws wl k hw hs) order st w
+  · exact fold_bound cfg uf (cntUnav · wl k) _ (fun s j ws => step_unav cfg uf s j ws wl k hw hs) order st w
+
+/-- **unavailable_inv** for a whole round, stated on its own: unless the gate is skipped, the pods of a workload
+    that are unavailable (terminating, Failed / Succeeded, or not Ready) or being migrated stay within
+    max(maxUnavailable, what it was before the round) when the round made no exempt admission. -/
+theorem unavailable_inv (cfg : ArbCfg) (uf : List Nat) (st : ArbSt) (order : List Nat) (w : WF st) (wl k : Nat)
+    (hw : wl ≠ 0) (hs : gateSkipped cfg 1 = false) (hE : roundExempt cfg uf st order = 0) :
+    cntUnav (round cfg uf st order) wl k ≤ max (wlLimit cfg wl cfg.muKind cfg.maxUnav) (cntUnav st wl k) := by
+  have := (round_inv cfg uf st order w).2.2.2.2 wl k hw hs
+  simp only [hE, Nat.add_zero] at this
+  exact this
+
+/-- the exemption, explicitly: an admission is exempt iff the job was pending, passed, and its pod is not
+    found (deleted, or PodRef nil) or carries the evict annotation; every other admission went through all
+    limit checks (`round_inv_partial`). -/
+theorem exempt_iff (cfg : ArbCfg) (uf : List Nat) (st : ArbSt) (jid : Nat) :
+    exemptAdm cfg uf st jid = true ↔
+      ∃ j, findJob st jid = some j ∧ (processJob cfg uf st jid).2 = .passed ∧ j.phase ≤ 1 ∧
+        (j.pod = 0 ∨ findPod st j.pod = none ∨ ∃ p, findPod st j.pod = some p ∧ p.ann = true) := by
+  unfold exemptAdm
+  cases hj : findJob st jid with
+  | none => simp
+  | some j =>
+    by_cases h0 : j.pod = 0
+    · simp [h0]
+    · cases hp : findPod st j.pod with
+      | none => simp [h0, hp]
+      | some p => simp [h0, hp, and_assoc]
+
+/-- a round keeps the state well-formed, so `round_inv` applies to every round of a history -/
+theorem round_keeps_wf (cfg : ArbCfg) (uf : List Nat) (st : ArbSt) (order : List Nat) (w : WF st) :
+    WF (round cfg uf st order) := round_wf cfg uf order st w
+
+/-- the counter used for the unavailable clause counts exactly: terminating, Failed / Succeeded, or not Ready -/
+theorem podAvail_iff (q : PodA) :
+    podAvail q = false ↔ (q.term = true ∨ q.phase = 2 ∨ q.phase = 3 ∨ q.ready = false) := by
+  simp only [podAvail, podActive]
+  cases q.term <;> cases q.ready <;> by_cases h2 : q.phase = 2 <;> by_cases h3 : q.phase = 3 <;> simp [h2, h3]
+
+-- non-vacuity: a well-formed state where workload 1 (5 replicas, maxUnavailable 2) has one terminating-but-Ready
+-- replica: the round admits exactly one of the two waiting jobs; no exempt admission; the bound is tight (2 ≤ 2)
+example :
+    let cfg : ArbCfg := { maxGlobal := -1, maxNode := -1, maxNs := -1, maxMigr := -1, maxUnav := 2, replicas := [(1, 5)] }
+    let st : ArbSt := { pods := [⟨1, 1, 1, 1, true, false, true, 0⟩, ⟨2, 1, 1, 1, true, false, false, 0⟩,
+                                 ⟨3, 2, 1, 1, true, false, false, 0⟩],
+                        jobs := [⟨1, 2, 1, 0, false⟩, ⟨2, 3, 1, 0, false⟩], waiting := [1, 2] }
+    WF st ∧ (round cfg [] st [1, 2]).arbitrated = [1] ∧ roundExempt cfg [] st [1, 2] = 0 ∧
+      cntUnav st 1 1 = 1 ∧ cntUnav (round cfg [] st [1, 2]) 1 1 = 2 ∧ wlLimit cfg 1 cfg.muKind cfg.maxUnav = 2 := by decide
+
+-- an annotated pod is admitted beyond the limit and counted as exempt
+example :
+    let cfg : ArbCfg := { maxGlobal := 1, maxNode := -1, maxNs := -1, maxMigr := -1, maxUnav := -1, replicas := [(1, 8)] }
+    let st : ArbSt := { pods := [⟨1, 1, 1, 1, true, false, false, 0⟩, ⟨2, 1, 1, 1, true, true, false, 0⟩],
+                        jobs := [⟨1, 1, 1, 0, false⟩, ⟨2, 2, 1, 0, false⟩], waiting := [1, 2] }
+    WF st ∧ cntGlobal (round cfg [] st [1, 2]) = 2 ∧ roundExempt cfg [] st [1, 2] = 1 := by decide
 
 -- non-vacuity: a round over two waiting jobs on one node with per-node limit 1 admits the first, keeps the second
 example :
